@@ -5,7 +5,8 @@ through every repository callee (inlined by forward substitution; virtual calls
 on this resolved for the dynamic class; set_var("lit") resolved through the
 class's registration table to the member it aliases).
 """
-from .. import terms
+import os
+from .. import terms, nf
 from .. import catalogue as cat
 from ..ast import strip, flat_stmts, calls, is_param, member_path
 from ..ir import walk
@@ -80,9 +81,182 @@ def ctor_written_members(prog, cls, regmap, scalar):
     return paths, pointee, derived
 
 
+_MEMO = {}
+
+
+def memo_protocol(prog, cls, scalar, f, regmap, regpaths, cached):
+    """A memo cache across calls.  `cached` are the non-registered members evaluator f reads before writing them.
+    Decides whether they form a cache that cannot change the result:
+      (1) every path of f is a *miss* (no entry value of a cached member reaches the result; the data members are refilled
+          from parameters and arguments, the key members are set to the arguments, the flag to true) or a *hit* (its
+          condition says the flag is set and every key member equals the corresponding argument);
+      (2) the hit result, with each data member replaced by what a miss stores in it and each key member by its argument,
+          is the miss result;
+      (3) on an object of this class every store to a registered parameter through the slot arrays (set_var, purge_var,
+          set_vec, ... - every base-class method that writes through vararr / vecarr) is followed by a reset of the flag,
+          and construction leaves the flag reset.
+    Returns (True, text) / (False, why: a recognised cache that is not coherent) / (None, why not recognised)."""
+    key = (id(prog), cls, f.q, f.sig)
+    if key in _MEMO:
+        return _MEMO[key]
+    res = _memo_protocol(prog, cls, scalar, f, regmap, regpaths, cached)
+    _MEMO[key] = res
+    return res
+
+
+def _memo_protocol(prog, cls, scalar, f, regmap, regpaths, cached):
+    from ..api import flat as flat_events
+    E = terms.Evaluator(prog, dyn_class=cls, scalar=scalar, regmap=regmap)
+    E.unroll_paths = True
+    try:
+        outs = E.run(f)
+    except RecursionError:
+        return None, 'too deep'
+    paths = [o for o in outs if o.kind == 'ret' and o.ret is not None]
+    if len(paths) < 2 or len(paths) != len(outs):
+        return None, 'not a hit / miss pair of paths'
+    cached = set(cached)
+
+    def entry_syms(t):
+        return set(x[1] for x in terms.subterms(t) if x[0] == 'sym' and x[1] in cached)
+    args = [('sym', p_['n']) for p_ in f.params]
+    miss = [o for o in paths if not entry_syms(o.ret)]
+    hit = [o for o in paths if entry_syms(o.ret)]
+    if not miss or not hit:
+        return None, 'no path that refills the cache' if not miss else 'no path that reads it'
+    # ---- the hit condition: flag set, keys equal to arguments
+    flags, keys = set(), {}
+    for o in hit:
+        fl_o, k_o = set(), {}
+        lits = []
+
+        def expand(c, neg):
+            while c[0] == 'not':
+                neg = not neg
+                c = c[1]
+            if (c[0] == 'or' and neg) or (c[0] == 'and' and not neg):
+                for x in (c[1] if len(c) == 2 and isinstance(c[1], (list, tuple)) and c[1] and isinstance(c[1][0], tuple) else c[1:]):
+                    expand(x, neg)
+            else:
+                lits.append((c, neg))
+        for c0 in o.conds:
+            expand(c0, False)
+        for c, neg in lits:
+            if c[0] == 'sym' and c[1] in cached and not neg:
+                fl_o.add(c[1])
+            elif c[0] == 'cmp' and c[1] in ('==', '!=') and (c[1] == '==') != neg:
+                for a_, b_ in ((c[2], c[3]), (c[3], c[2])):
+                    if a_[0] == 'sym' and a_[1] in cached and b_ in args:
+                        k_o[a_[1]] = b_
+        if not fl_o:
+            return None, 'a path reads the cache without testing a validity flag'
+        flags |= fl_o
+        for k_, v_ in k_o.items():
+            if keys.get(k_, v_) != v_:
+                return None, 'key compared with different arguments'
+            keys[k_] = v_
+    if len(flags) != 1:
+        return None, 'more than one validity flag'
+    flag = next(iter(flags))
+    data = cached - flags - set(keys)
+    # every argument the miss result depends on must be part of the key
+    for o in miss:
+        used_args = set(x for x in terms.subterms(o.ret) if x in args)
+        for dm in data:
+            v = o.mem.get(dm)
+            if v is not None:
+                used_args |= set(x for x in terms.subterms(v) if x in args)
+        missing = [a_[1] for a_ in used_args if a_ not in keys.values()]
+        if missing:
+            return False, 'the cache `%s` is not keyed on the argument(s) %s the cached values depend on' % (flag.rsplit('.', 1)[0], missing)
+    # ---- a miss refills everything
+    fills = {}
+    for o in miss:
+        if o.mem.get(flag) != terms.num(1):
+            return None, 'a refilling path does not set the flag'
+        for k_, a_ in keys.items():
+            if o.mem.get(k_) != a_:
+                return False, 'a refilling path does not store the argument %s in the key `%s`' % (a_[1], k_)
+        for dm in data:
+            v = o.mem.get(dm)
+            if v is None or entry_syms(v) or terms.has_unk(v):
+                return None, 'data member `%s` is not refilled from parameters and arguments' % dm
+            if fills.setdefault(dm, v) != v:
+                return None, 'refilling paths disagree'
+    # ---- (2) hit result == miss result under the substitution
+    sub = {('sym', dm): v for dm, v in fills.items()}
+    sub.update({('sym', k_): a_ for k_, a_ in keys.items()})
+
+    def subst(t):
+        if isinstance(t, tuple):
+            if t in sub:
+                return sub[t]
+            return tuple(subst(x) if isinstance(x, tuple) else x for x in t)
+        return t
+    m0 = miss[0].ret
+    for o in hit:
+        hs = subst(o.ret)
+        if hs != m0:
+            try:
+                same = nf.nf(hs) == nf.nf(m0)
+            except Exception:
+                same = False
+            if not same:
+                return False, 'a hit returns `%s`, which is not what a miss returns for the same point' % terms.fmt(o.ret)[:60]
+    # ---- (3) invalidation on every parameter write, on an object of this class
+    B = cat.BASE % scalar
+    # which kind of registered parameter the cached values are computed from: scalars live behind vararr, vectors behind vecarr
+    kind_of = {'.'.join(r_['path'][1:]): r_['kind'] for r_ in cat.registrations(prog, cls) if r_['path'] and r_['path'][0] == 'this'}
+    dep_kinds = set()
+    for v_ in list(fills.values()) + [m0]:
+        for x_ in terms.syms(v_):
+            k_ = kind_of.get(x_.split('[')[0])
+            if k_:
+                dep_kinds.add(k_)
+    slot_arrays = tuple(a_ for a_, k_ in (('vararr', 'var'), ('vecarr', 'vec')) if k_ in dep_kinds) or ('vararr',)
+    writers = []
+    for g in prog.methods_of(B):
+        if g.get('ctor') or g.get('dtor') or g.body is None:
+            continue
+        if any(n.get('k') == 'member' and n.get('n') in slot_arrays for n in walk(g.body)):
+            writers.append(g)
+    checked = []
+    for g in writers:
+        Eg = terms.Evaluator(prog, dyn_class=cls, scalar=scalar, noreturn=('masa_exit',), opaque=('return_name',))
+        Eg.unroll_paths = True
+        try:
+            og = Eg.run(g)
+        except RecursionError:
+            return None, '%s too deep' % g.n
+        for o in og:
+            evs = flat_events(o.events)
+            w = [i for i, e_ in enumerate(evs) if e_[0] in ('write-through', 'store') and any(
+                x[0] == 'sym' and x[1] in slot_arrays for x in terms.subterms(e_[1] if isinstance(e_[1], tuple) else ()))]
+            if not w:
+                continue
+            r = [i for i, e_ in enumerate(evs) if e_[0] == 'write' and e_[1] == flag]
+            if not r or r[-1] < w[-1] or o.mem.get(flag) != terms.num(0):
+                return False, ('the cache `%s` is filled from the parameters but %s stores to a registered parameter without resetting `%s` afterwards '
+                               '(on an object of %s): the next evaluation at the same point returns values of the old parameters') % (
+                                   flag.rsplit('.', 1)[0], g.n, flag, cat.short(cls))
+        checked.append(g.n)
+    if 'set_var' not in checked:
+        return None, 'set_var not analysed'
+    from .c14 import ctor_of
+    ct = ctor_of(prog, cls)
+    Ec = terms.Evaluator(prog, dyn_class=cls, scalar=scalar, opaque=('register_var', 'register_vec'))
+    try:
+        oc = Ec.run(ct) if ct is not None else []
+    except RecursionError:
+        oc = []
+    if not oc or any(o.mem.get(flag) != terms.num(0) for o in oc):
+        return False, 'construction does not leave the validity flag `%s` reset: the first evaluation may read an uninitialised cache' % flag
+    return True, 'memo cache `%s` keyed on %s, refilled on a miss, invalidated by %s' % (flag.rsplit('.', 1)[0], sorted(a_[1] for a_ in keys.values()), sorted(checked))
+
+
 def run(ctx, prog):
     ctx.rule('C10.P1', 'no evaluator (nor anything it calls) stores to a registered parameter, directly, through set_var/set_vec, or through a helper')
-    ctx.rule('C10.P2', 'every non-registered member an evaluator reads is either written earlier in the same invocation on every path, or written by no evaluator at all and assigned during construction')
+    ctx.rule('C10.P2', 'every non-registered member an evaluator reads is either written earlier in the same invocation on every path, or written by no evaluator at all and assigned during construction, or part of a memo cache proved coherent (a hit returns what a miss returns for the same point, the key covers every argument used, every store to a registered parameter is followed by a reset of the validity flag on an object of this class, construction resets it)')
     ctx.rule('C10.P3', 'nothing a static local kept from an earlier call reaches a result, branch or store of an evaluator (a static overwritten before it is read is scratch space, not state); no mutable global or static data member is read, no rand/time/input call is reachable')
     ctx.rule('C10.P5', 'masa_master<double>() and masa_master<long double>() return two distinct global registries')
     ctx.explanation = ('P1-P3 imply that an evaluator\'s result is a function of the registered parameters\' current values and its arguments, and that it changes no '
@@ -130,6 +304,8 @@ def run(ctx, prog):
                         continue
                     if pth.startswith(('global:', 'const:')):
                         continue
+                    if any(w_.startswith(pth + '.') for w_ in W_all):
+                        continue        # the aggregate itself (a reference to it is handed out): its fields are judged one by one
                     if pth in W_all:
                         w = W_all[pth][0]
                         probs.append('reads cached member `%s` at %s before writing it in this call; it is written by %s (%s): value depends on earlier calls' % (pth, loc, w[0], w[1]))
@@ -138,6 +314,15 @@ def run(ctx, prog):
                     elif pth in derived:
                         probs.append('reads member `%s` at %s, which only construction / masa_init_param computes, from the parameters %s: after masa_set_param it is stale' % (
                             pth, loc, sorted(derived[pth])[:4]))
+                cached_only = [pth_ for pth_ in tr.pre_reads if pth_ in W_all and pth_ not in regpaths]
+                if os.environ.get('C10_DEBUG') and probs:
+                    print('DEBUG', key, len(probs), [p_[:60] for p_ in probs if not p_.startswith('reads cached member')], cached_only)
+                if probs and cached_only and all(p_.startswith('reads cached member') for p_ in probs):
+                    ok_m, why_m = memo_protocol(prog, cls, scalar, f, regmap, regpaths, sorted(w_ for w_ in W_all if w_ not in regpaths and not w_.startswith('*')))
+                    if ok_m is True:
+                        probs = []
+                    elif ok_m is False:
+                        probs = [why_m]
                 ctx.ob('C10.P2', key, not probs, f.where, '; '.join(probs[:3]),
                        sample='%s: %d members read on entry, all registered or construction-time constants; %d cached members rewritten before use' % (
                            key, len(tr.pre_reads), len([w for w in tr.writes if w not in regpaths])),
